@@ -55,19 +55,40 @@ def cmd_verify(sid):
         drop(w)
 
 
-def cmd_run(sid, in_repo=False, tier='quick', props=None):
+def head(repo):
+    return sh('git -C %s rev-parse --short HEAD' % repo)[1].strip()
+
+
+def cmd_run(sid, in_repo=False, tier='quick', props=None, seeds=('0',)):
+    """results per check and per VERIF_SEED; the first replay file a VIOLATION line cites is copied to seeded/<id>/replay_<check>.json"""
     d = os.path.join(S, sid)
     meta = json.load(open(os.path.join(d, 'meta.json')))
     props = props or [meta['property']]
     results = {}
+
+    def one(p, env):
+        per = {}
+        for sd in seeds:
+            rc, out = sh('timeout 3000 ./check %s --tier %s' % (p, tier), cwd=V, env=dict(env, VERIF_SEED=sd))
+            lines = [l for l in out.split('\n') if l.startswith(('VIOLATION', 'KNOWN-FINDING', p))]
+            per[sd] = {'rc': rc, 'lines': [l for l in lines if not l.startswith('KNOWN-FINDING')][:12]}
+            for l in lines:
+                m = re.match(r'VIOLATION property=\S+ replay=(\S+)', l)
+                if m and os.path.exists(m.group(1)):
+                    dst = os.path.join(d, 'replay_%s.json' % p)
+                    if not os.path.exists(dst) or sd == seeds[0]:
+                        shutil.copy(m.group(1), dst)
+                    if os.path.dirname(m.group(1)) == os.path.join(V, 'replays'):
+                        os.remove(m.group(1))
+        results[p] = {'rc': max(x['rc'] for x in per.values()) if all(x['rc'] in (0, 1) for x in per.values()) else 2,
+                      'caught_on_seeds': [sd for sd in seeds if per[sd]['rc'] == 1], 'lines': per[seeds[0]]['lines'], 'by_seed': per}
     if in_repo:
         rc, out = sh('git -C /repo status --porcelain')
         assert out.strip() == '', '/repo not clean: ' + out
         rc, out = sh('git -C /repo apply %s/patch.diff' % d); assert rc == 0, out
         try:
             for p in props:
-                rc, out = sh('timeout 3000 ./check %s --tier %s' % (p, tier), cwd=V, env=dict(os.environ, BCT_EVIDENCE='/tmp/bct_seed_evidence'))
-                results[p] = {'rc': rc, 'lines': [l for l in out.split('\n') if l.startswith(('VIOLATION', 'KNOWN-FINDING', p))][:12]}
+                one(p, dict(os.environ, BCT_EVIDENCE='/tmp/bct_seed_evidence'))
         finally:
             sh('git -C /repo checkout -- .')
             sh('git -C %s checkout -- lean/BctVerif/Gen' % V)
@@ -78,16 +99,16 @@ def cmd_run(sid, in_repo=False, tier='quick', props=None):
             # private copy of the lake project: checks regenerate lean/BctVerif/Gen/*.lean from the (patched) source
             lean = w + '_lean'
             sh('rm -rf %s && cp -r %s %s' % (lean, os.path.join(V, 'lean'), lean))
-            env = dict(os.environ, BCT_REPO=w, BCT_LEAN=lean, BCT_EVIDENCE='/tmp/bct_seed_evidence')
+            env = dict(os.environ, BCT_REPO=w, BCT_LEAN=lean, BCT_EVIDENCE='/tmp/bct_seed_evidence_' + sid)
             for p in props:
-                rc, out = sh('timeout 3000 ./check %s --tier %s' % (p, tier), cwd=V, env=env)
-                results[p] = {'rc': rc, 'lines': [l for l in out.split('\n') if l.startswith(('VIOLATION', 'KNOWN-FINDING', p))][:12]}
+                one(p, env)
         finally:
-            drop(w); shutil.rmtree(w + '_lean', ignore_errors=True)
+            drop(w); shutil.rmtree(w + '_lean', ignore_errors=True); shutil.rmtree('/tmp/bct_seed_evidence_' + sid, ignore_errors=True)
     caught = any(r['rc'] == 1 for r in results.values())
-    json.dump({'mode': 'in-repo' if in_repo else 'scratch-worktree', 'tier': tier, 'caught': caught, 'checks': results},
+    json.dump({'mode': 'in-repo' if in_repo else 'scratch-worktree', 'tier': tier, 'caught': caught, 'seeds': list(seeds),
+               'verif_head': head(V), 'repo_head': head('/repo'), 'checks': results},
               open(os.path.join(d, 'result_%s.json' % tier), 'w'), indent=1)
-    print(sid, 'CAUGHT' if caught else 'MISSED', {p: r['rc'] for p, r in results.items()})
+    print(sid, 'CAUGHT' if caught else 'MISSED', {p: r['caught_on_seeds'] for p, r in results.items()})
     for p, r in results.items():
         for l in r['lines'][:4]:
             print('   ', l[:200])
@@ -128,6 +149,7 @@ if __name__ == '__main__':
     elif a[0] == 'run':
         tier = a[a.index('--tier') + 1] if '--tier' in a else 'quick'
         props = a[a.index('--props') + 1].split(',') if '--props' in a else None
-        cmd_run(a[1], '--in-repo' in a, tier, props)
+        seeds = tuple(a[a.index('--seeds') + 1].split(',')) if '--seeds' in a else ('0',)
+        cmd_run(a[1], '--in-repo' in a, tier, props, seeds)
     elif a[0] == 'table':
         cmd_table()
